@@ -80,6 +80,20 @@ impl Drop for Scratch {
     }
 }
 
+/// Directory name of layer i inside the scratch directory.  Sibling directories whose names are string prefixes of one another in BOTH
+/// orders (seeded change C13-9: `LayeredFilesystem::new` dropped a layer whose root path is a string prefix of a LATER root):
+/// romfs < romfs_patch (earlier is a prefix of later), rom after romfs (later is a prefix of earlier), romfs_patch < romfs_patch2.
+/// gen/fsgen.py::abs_layer must agree.
+pub fn layer_dir_name(i: usize) -> String {
+    match i {
+        0 => "romfs".to_string(),
+        1 => "romfs_patch".to_string(),
+        2 => "rom".to_string(),
+        3 => "romfs_patch2".to_string(),
+        _ => format!("rom{}", i),
+    }
+}
+
 /// relative paths the harness is willing to touch: no absolute paths, no `..`, no NUL
 pub fn safe_rel(p: &str) -> bool {
     // a backslash is an ordinary file-name character on the Unix hosts the check runs on (seeded change C13-7 needs such names)
